@@ -89,6 +89,7 @@ struct WorldCfg {
     int inbuf = 256;
     int queue = 4;
     int heap = 64;
+    int no_heap = 0;   // static-heap build only: 1 = SCPI_InitHeap never called, 2 = SCPI_InitHeap with length 0: every error is queued without text
     int wr_mode = 0;       // 0 full, 1 short (half), 2 zero, 3 (size_t)-1
     int flush_err = 0;     // flush returns SCPI_RES_ERR
     // identification strings given to SCPI_Init: lengths of the four fields; -1 = the default of this harness
